@@ -150,7 +150,7 @@ func c04pairSSA(c *core.Ctx, r *core.Report) {
 	}
 	done := map[string]bool{}
 	nMatch, nEq := 0, 0
-	for _, ii := range core.InlinedInstrs(c, fn, 2, func(ins ssa.Instruction) bool {
+	for _, ii := range core.InlinedInstrs(c, fn, c.Depth(2), func(ins ssa.Instruction) bool {
 		switch x := ins.(type) {
 		case *ssa.Call:
 			sc := x.Call.StaticCallee()
@@ -269,7 +269,7 @@ func c04compileSSA(c *core.Ctx, r *core.Report) {
 	}
 	r.Analysed("analysis/config.compileRegexes")
 	seen := map[string]bool{}
-	for _, ii := range core.InlinedInstrs(c, fn, 2, func(ins ssa.Instruction) bool {
+	for _, ii := range core.InlinedInstrs(c, fn, c.Depth(2), func(ins ssa.Instruction) bool {
 		st, ok := ins.(*ssa.Store)
 		if !ok {
 			return false
